@@ -141,7 +141,7 @@ class G:
         if c < 0.91 and tail:
             return ["NullStripped", ["name", "GreedyBytes"], tag(b"\x00")]
         if c < 0.93 and tail:
-            return ["GreedyRange", self.prim(depth - 1)]
+            return ["GreedyRange", self.elem(depth - 1)]
         if c < 0.95:
             return ["RepeatUntil", ["bin", "==", ["obj"], 0], B]
         if c < 0.97:
@@ -151,6 +151,19 @@ class G:
         if ints:
             return ["IfThenElse", ["bin", "==", ["this", r.choice(ints)], 1], self.intleaf(), self.intleaf()]
         return ["FocusedSeq", "v", [[None, ["Const", tag(b"\x01"), None]], ["v", self.intleaf()]]] if False else self.leaf(tail)
+
+    def elem(self, depth):
+        """element of a range: never zero-width (a repeater over an element that consumes nothing does not end - C06's subject)"""
+        x = self.prim(depth)
+        try:
+            if M.size(x, M.top_scope({})) > 0:
+                return x
+        except Exception:
+            pass
+        if x[0] == "Struct":
+            self.n += 1
+            return ["Struct", [["k%d" % self.n, B]] + x[1]]
+        return x
 
     def prim(self, depth):
         r = self.r
@@ -382,6 +395,10 @@ def run_recipe(ctx, rng, r):
             with monitors.MEMBERS as tr:
                 cv = d.parse_stream(s)
                 events = [list(e) for e in tr.events]
+        except monitors.TraceOverflow:
+            ctx.count("skipped_more_than_400000_member_events")
+            ctx.notes["member_trace_overflow_example"] = repr(r)[:600]
+            break
         except Exception:
             ctx.count("canonical_not_parseable")
             continue
